@@ -38,10 +38,18 @@ def _variant(word, i):
 def _dur_text(d, rng):
     """duration of d ms in a randomly chosen accepted unit spelling"""
     forms = [("%g s" % (d / 1000.0)), ("%d ms" % d), ("%g second" % (d / 1000.0)), ("%g seconds" % (d / 1000.0)),
-             ("%g Seconds" % (d / 1000.0)), ("%g minute" % (d / 60000.0)), ("%g" % (d / 1000.0))]
+             ("%g Seconds" % (d / 1000.0)), ("%g minute" % (d / 60000.0)), ("%g" % (d / 1000.0)),
+             ("%d milliseconds" % d), ("%d MilliSeconds" % d), ("%d millisecond" % d)]       # prefixed unit NAMES, singular and plural
     if (d / 60000.0) != float("%g" % (d / 60000.0)):
         forms.pop(5)
     return rng.choice(forms)
+
+
+def _word(w, pid, on):
+    """Onset / Offset / Duration / Delay in another letter case (tags are case-insensitive), for every third process when on"""
+    if not on or pid % 3 != 1:
+        return w
+    return [w.lower(), w.upper(), w[0].lower() + w[1:].upper()][(pid // 3) % 3]
 
 
 def concretise(case, rng):
@@ -52,6 +60,7 @@ def concretise(case, rng):
     parts = {j: [] for j in range(1, len(times) + 1)}
     cv = rng.random() < 0.6      # contents carry a type variable of their own (Condition-variable/P<n>)
     valued = rng.random() < 0.3
+    recase = rng.random() < 0.4      # reserved tags of some processes are written in another letter case
     names, defvar = (NAMES_V, DEFVAR_V) if valued else (NAMES, DEFVAR)
     varof = {}                   # proc id -> factor columns it switches on
     for j, (t, al) in enumerate(zip(times, acts), 1):
@@ -61,7 +70,7 @@ def concretise(case, rng):
             if a["a"] == "on":
                 sp = _variant(names[a["key"]], pid)
                 if pid % 3 == 0:
-                    txt = "(Def/%s, Onset)" % sp
+                    txt = "(Def/%s, %s)" % (sp, _word("Onset", pid + 1, recase))
                     tokens[pid] = "Def/" + sp
                 else:
                     tag = PROC_TAGS[pid % len(PROC_TAGS)]
@@ -69,11 +78,12 @@ def concretise(case, rng):
                     if cv:
                         varof.setdefault(pid, []).append("p%d" % pid)
                         tag = "%s, Condition-variable/P%d" % (tag, pid) if pid % 4 < 2 else "Condition-variable/P%d, %s" % (pid, tag)
-                    txt = "(Def/%s, Onset, (%s))" % (sp, tag) if pid % 2 else "(Onset, (%s), Def/%s)" % (tag, sp)
+                    ow = _word("Onset", pid, recase)
+                    txt = "(Def/%s, %s, (%s))" % (sp, ow, tag) if pid % 2 else "(%s, (%s), Def/%s)" % (ow, tag, sp)
                 varof.setdefault(pid, []).append(defvar[a["key"]])
             elif a["a"] == "off":
                 sp = _variant(names[a["key"]], 7 - (pid % 8))
-                txt = "(Def/%s, Offset)" % sp
+                txt = "(Def/%s, %s)" % (sp, _word("Offset", pid, recase))
                 can_delay = False
             else:
                 # Duration processes come in pairs with IDENTICAL content: two different ongoing processes may read the same
@@ -82,12 +92,12 @@ def concretise(case, rng):
                 if cv:
                     varof.setdefault(pid, []).append("q%d" % (pid // 2))
                     tag = "%s, Condition-variable/Q%d" % (tag, pid // 2)
-                txt = "(Duration/%s, (%s))" % (_dur_text(a["d"], rng), tag)
+                txt = "(%s/%s, (%s))" % (_word("Duration", pid, recase), _dur_text(a["d"], rng), tag)
             if can_delay and j > 1 and rng.random() < 0.3:
                 # Delay-shifted: written in the row of an EARLIER time point of the same history
                 jc = rng.randrange(1, j)
                 d = t - times[jc - 1]
-                parts[jc].append("(Delay/%s, %s)" % (rng.choice(["%g s" % (d / 1000.0), "%d ms" % d]), txt[1:-1]))
+                parts[jc].append("(%s/%s, %s)" % (_word("Delay", pid + 2, recase), rng.choice(["%g s" % (d / 1000.0), "%d ms" % d, "%d milliseconds" % d]), txt[1:-1]))
             else:
                 parts[j].append(txt)
     rows = []       # (time_ms, order, hed)
@@ -220,7 +230,7 @@ def judge(c):
         for p in plain.get(j, []):
             if p not in resid:
                 prob.append(("residual-lost", "time point %d: plain tag %s missing from the remaining annotation %r" % (j, p, resid)))
-        if found(resid) or re.search(r"\b(Onset|Offset|Duration)\b", resid):
+        if found(resid) or re.search(r"\b(Onset|Offset|Duration)\b", resid, re.I):
             prob.append(("residual-temporal", "time point %d: remaining annotation still holds temporal groups: %r" % (j, resid)))
     # factor vectors: a variable is on at a time point exactly when a process carrying it starts or is context there
     if "factors" in res and "varof" in c:
